@@ -310,8 +310,10 @@ def fifo_failures(case, impl):
 class C03(WithEL):
     prop = "C03"
     level_text = ("Theorems: executed events are strictly increasing in (timestamp, request order) along every run and every "
-                  "API history, hence FIFO among equal timestamps; a negative theorem on the faithful heapq port documents "
-                  "the repaired defect. Tied to the code by differential execution on tie-heavy histories and bursts.")
+                  "API history, hence FIFO among equal timestamps; the faithful Lean port of heapq.py is proved to refine the "
+                  "sorted-list queue on every history (invariant, permutation, minimality, fuel), and a negative theorem on it "
+                  "documents the repaired timestamp-only defect. Tied to the code by differential execution on tie-heavy "
+                  "histories and bursts.")
     el_enum_len = 5
     rule = ("tie-heavy EventLoop histories (2-3 timestamps, bursts, removals in between) + simulations with bursts of "
             "same-instant timers and sends on one link; non-trivial = a tie group of size >= 4")
@@ -341,8 +343,9 @@ class C04(SimCheck):
     level_text = ("Theorems for every configuration and program: the termination predicate spelled out; every executed event "
                   "is within the duration and below the iteration limit; no callback (finish included) observes a time after "
                   "the duration; a live step within both bounds executes exactly the head event (events AT the duration run); "
-                  "completion is reported only at a bound. Tied to the code by differential execution and by comparing the "
-                  "bounded run with the unbounded run of the same program on the implementation.")
+                  "completion is reported only at a bound; the executed events of a bounded run are a prefix of those of the "
+                  "unbounded run (lock-step invariant). Tied to the code by differential execution and by comparing the bounded "
+                  "run with the unbounded run of the same program on the implementation.")
     rule = ("timelines from table-driven protocols against duration in {0, an event time, between, beyond, None} x "
             "max_iterations in {0, 1, k, None}; the bounded run is compared with the unbounded run of the same program on "
             "the implementation; non-trivial = a bound actually cut the run")
@@ -584,8 +587,10 @@ class C07(SimCheck):
     level_text = ("Theorems for every program and history: the pending-timer invariant on every reachable world (fresh unique "
                   "ids, every pending timer has exactly one queued event), set/cancel/fire specifications (refusal of the past "
                   "without effect, cancel removes all and only the owner's entries of that name, the fired entry is forgotten "
-                  "before the handler runs, handle_timer only from the owner's still-pending event). Tied to the code by "
-                  "differential execution with re-entrant set/cancel histories.")
+                  "before the handler runs, handle_timer only from the owner's still-pending event) and run-level counting "
+                  "theorems over the trace of every reachable world (accepted sets = executed + queued timer events per node, name "
+                  "and time; fired <= executed, with equality when that name was never cancelled; exhaustion corollary). Tied to "
+                  "the code by differential execution with re-entrant set/cancel histories.")
     rule = ("1-4 nodes, 3 timer names, histories of set/cancel issued from initialize, packet and timer handlers (same and "
             "other names, same-instant sets); non-trivial = a cancel suppressed a pending timer while another name or node "
             "kept one, and a set or cancel was issued from inside a timer handler")
@@ -684,8 +689,10 @@ class C08(SimCheck):
     level_text = ("Theorems (loss-free, in range, any node count, delay, program): a unicast creates exactly one delivery event "
                   "for the named node at send+max(delay,0); a broadcast exactly one per other node in node order and none for "
                   "the sender; invalid destinations are refused without effect; executing a delivery is one handle_packet with "
-                  "the unchanged payload on the addressee and handle_packet happens only that way; with C02 each exactly once. "
-                  "Tied to the code by differential execution.")
+                  "the unchanged payload on the addressee and handle_packet happens only that way; run-level counting theorems "
+                  "over every reachable trace (handled = executed deliveries; created = executed + queued; created copies for a "
+                  "node <= accepted sends to it + broadcasts by others, for every medium; equality and exactly-once under the "
+                  "loss-free, in-range hypotheses). Tied to the code by differential execution.")
     rule = ("2-5 nodes all in range, loss-free medium, delays in {0, 1 tick, several}, sends/broadcasts (incl. to self, "
             "unknown, None) from initialize, timer, packet and telemetry handlers; non-trivial = >= 3 nodes, >= 1 broadcast, "
             ">= 2 messages in flight at once")
